@@ -3214,12 +3214,14 @@ class QuaternionArray(np.ndarray):
                          [ 0.17094453, -0.3723117 ,  0.54109885, -0.73442086],
                          [ 0.1862619 , -0.38421818,  0.5260265 , -0.73551276]])
         """
+        original_array = None if inplace else np.copy(self.array)
         self.remove_jumps()
         interpolated_quaternions = np.copy(self.array)
         nan_intervals = get_nan_intervals(self.array)
         if len(nan_intervals) == 0:
             if inplace:
                 return None
+            self.array[:] = original_array      # Not in place: leave this array as it was
             return interpolated_quaternions
         for interval in nan_intervals:
             interpolated_quaternions[interval[0]:interval[1]+1] = slerp(
@@ -3230,4 +3232,5 @@ class QuaternionArray(np.ndarray):
         if inplace:
             self.array[:] = interpolated_quaternions
             return None
+        self.array[:] = original_array          # Not in place: leave this array as it was
         return interpolated_quaternions
